@@ -2,7 +2,9 @@ package main
 
 import (
 	"bytes"
+	"encoding/binary"
 	"fmt"
+	"os"
 	"runtime/debug"
 	"strings"
 
@@ -393,7 +395,17 @@ func (tc *tcase) damageHalf() {
 		// The footer is not inside a checksummed block: outside the statement's
 		// premise. It is exercised and counted, but gives no verdicts.
 		inPremise := cl != "footer" && cl != "gap"
+		if tc.c.Extra == "footer-only" && inPremise {
+			continue // diagnostic mode: same alterations (the PRNG stream is unchanged), footer positions only
+		}
 		buf[p] ^= x
+		if !inPremise && tc.footerHandleTooLarge(buf) {
+			// an altered footer handle that asks the reader for a huge buffer is not
+			// exercised (it could exhaust memory, which no recover() can catch)
+			buf[p] ^= x
+			tc.count("damage_footer_skipped:handle_length_over_64MiB", 1)
+			continue
+		}
 		var res posResult
 		var pstack, pval string
 		func() {
@@ -416,6 +428,8 @@ func (tc *tcase) damageHalf() {
 			if !inPremise {
 				tc.count("damage_footer_outside_premise:panic", 1)
 				tc.c.Distinct("footer_panic_sites", wk.PanicSite(pstack))
+				fmt.Fprintf(os.Stderr, "C13 note (no verdict, footer is outside every checksummed block): case=%d position=%d (%s, footer offset %d) xor=%#x table_bytes=%d: recovered %q at %s\n",
+					tc.i, p, rg.name, p-(len(tc.img)-footerLen), x, len(tc.img), pval, wk.PanicSite(pstack))
 				continue
 			}
 			where["panic"], where["stack"] = pval, strings.Split(pstack, "\n")
@@ -453,6 +467,8 @@ func (tc *tcase) damageHalf() {
 		if res.bad != nil {
 			if !inPremise {
 				tc.count("damage_footer_outside_premise:invented-or-misattributed", 1)
+				fmt.Fprintf(os.Stderr, "C13 note (no verdict, footer is outside every checksummed block): case=%d position=%d (%s, footer offset %d) xor=%#x table_bytes=%d: %s %v\n",
+					tc.i, p, rg.name, p-(len(tc.img)-footerLen), x, len(tc.img), res.bad.what, res.bad.w)
 				continue
 			}
 			for k, v := range res.bad.w {
@@ -465,4 +481,28 @@ func (tc *tcase) damageHalf() {
 			tc.fail(sig, fmt.Sprintf("one altered byte (%s, position %d, xor %#x): a read returned an %s without an error", rg.name, p, x, res.bad.what), where)
 		}
 	}
+}
+
+// footerHandleTooLarge decodes the two footer handles of buf the way the reader does.
+func (tc *tcase) footerHandleTooLarge(buf []byte) bool {
+	if len(buf) < footerLen {
+		return false
+	}
+	foot := buf[len(buf)-footerLen:]
+	pos := 0
+	for h := 0; h < 2; h++ {
+		_, n := binary.Uvarint(foot[pos:])
+		if n <= 0 {
+			return false
+		}
+		l, m := binary.Uvarint(foot[pos+n:])
+		if m <= 0 {
+			return false
+		}
+		if l > 64<<20 {
+			return true
+		}
+		pos += n + m
+	}
+	return false
 }
